@@ -37,6 +37,9 @@ REASONED = {
 
 
 def run(repo, res):
+    _ns, _np = R.shape_stats(repo)
+    res.extra['e1_shapes_interpreted'] = _ns
+    res.extra['e1_shape_paths_interpreted'] = _np
     # ---- R1 get_expr_end: abstractly interpreted on symbolic expression trees --------------------------
     from ..exprend import expr_end_semantics
     sem = expr_end_semantics(repo)
